@@ -197,7 +197,12 @@ func mutate(r *rand.Rand, m *mutation, fr, firstOfLink []byte) []byte {
 		if err := cr.UnmarshalVT(pay); err != nil {
 			return append([]byte(nil), fr...)
 		}
-		switch r.Intn(6) {
+		sel := r.Intn(8)
+		unknownType := sel >= 6
+		if unknownType {
+			sel = 2
+		}
+		switch sel {
 		case 0:
 			m.Sub = "version"
 			cr.Version = []uint32{0, 12, 13, 14, 99, 4294967295}[r.Intn(6)]
@@ -206,7 +211,18 @@ func mutate(r *rand.Rand, m *mutation, fr, firstOfLink []byte) []byte {
 			cr.ClientVersion = []string{"", "edited", "x:middle:v0.36.6"}[r.Intn(3)]
 		case 2:
 			m.Sub = "type"
-			cr.Type = 1 - cr.Type
+			if !unknownType {
+				cr.Type = 1 - cr.Type
+			} else {
+				// the field is an open proto3 enum: values that name no credential type at all
+				// (added after seeded change C14-6 - a type switch without default - was missed)
+				cr.Type = handshakeproto.CredentialsType([]int32{2, 3, 7, 127, -1, 1 << 20}[r.Intn(6)])
+				m.Sub = "type-unknown"
+				if r.Intn(2) == 0 {
+					cr.Payload = nil
+					m.Sub = "type-unknown,payload-empty"
+				}
+			}
 		case 3:
 			m.Sub = "payload-bit"
 			if len(cr.Payload) > 0 {
